@@ -21,14 +21,14 @@ EXTENDS KS, Json, SequencesExt
 
 Apis  == {"c", "cpp"}
 Seeds == <<1, 2, 1000, 2147483647, Add(Mul(65536, 65536), 5), 0>>   \* ..., 2^32 + 5, and 0 (a seed like any other)
-DirArgs == {"none", "rel"}                                          \* no directory / a multi-character relative directory
-
-Args == [api : Apis, nullflag : BOOLEAN, dir : DirArgs, seed : 1..Len(Seeds)]
-ValidArgs == {a \in Args : (a.api = "cpp" => ~a.nullflag) /\ (a.nullflag => a.dir = "none")}
+DirArgs == {"none", "rel", "blank"}      \* no directory / a multi-character relative directory / a prefix that ends with a blank
+(* blankfile: the world file's name ends with a blank (a valid name; no file of the same name without the blank exists) *)
+Args == [api : Apis, nullflag : BOOLEAN, dir : DirArgs, seed : 1..Len(Seeds), blankfile : BOOLEAN]
+ValidArgs == {a \in Args : (a.api = "cpp" => ~a.nullflag) /\ (a.nullflag => a.dir = "none") /\ (a.blankfile => a.seed = 1)}
 
 (* refinement mapping of the constructor arguments *)
 MapCreate(a) == [hasdir |-> (a.dir # "none") /\ ~a.nullflag,
-                 dir |-> IF a.dir = "none" THEN "" ELSE "od_c16/",
+                 dir |-> CASE a.dir = "none" -> "" [] a.dir = "rel" -> "od_c16/" [] OTHER -> "od_c16/run ",
                  seed |-> Seeds[a.seed]]
 
 Rnd == Area("continental plate", "rnd", RectU(FALSE, 1100, 0, 1500, 500), 0, 200*Km, <<>>,
@@ -70,12 +70,12 @@ Behaviour(a) ==
       dirpart == IF a.dir = "none" THEN <<>> ELSE <<[op |-> "mkdir", path |-> "od_c16"]>>
       dirarg == IF m.hasdir THEN [outdir |-> m.dir] ELSE <<>>
   IN
-  [id |-> <<"capi", a>>, labels |-> <<"capi", a.api, "dir:" \o a.dir, "seed" \o ToString(a.seed)>>,
+  [id |-> <<"capi", a>>, labels |-> <<"capi", a.api, "dir:" \o a.dir, "seed" \o ToString(a.seed)>> \o (IF a.blankfile THEN <<"file-name-ends-with-blank">> ELSE <<>>),
    steps |-> dirpart
-     \o << [op |-> "create", h |-> 1, api |-> "native", wb |-> Doc, seed |-> m.seed] @@ dirarg >>
-     \o (IF m.hasdir THEN <<[op |-> "exists", path |-> "od_c16/world_builder_declarations.schema.json", want |-> TRUE, remove |-> TRUE]>> ELSE <<>>)
-     \o << [op |-> "create", h |-> 2, api |-> a.api, wb |-> Doc, seed |-> m.seed, null_flag |-> a.nullflag] @@ dirarg >>
-     \o (IF m.hasdir THEN <<[op |-> "exists", path |-> "od_c16/world_builder_declarations.schema.json", want |-> TRUE, remove |-> TRUE]>> ELSE <<>>)
+     \o << [op |-> "create", h |-> 1, api |-> "native", wb |-> Doc, seed |-> m.seed, blank_name |-> a.blankfile] @@ dirarg >>
+     \o (IF m.hasdir THEN <<[op |-> "exists", path |-> m.dir \o "world_builder_declarations.schema.json", want |-> TRUE, remove |-> TRUE]>> ELSE <<>>)
+     \o << [op |-> "create", h |-> 2, api |-> a.api, wb |-> Doc, seed |-> m.seed, null_flag |-> a.nullflag, blank_name |-> a.blankfile] @@ dirarg >>
+     \o (IF m.hasdir THEN <<[op |-> "exists", path |-> m.dir \o "world_builder_declarations.schema.json", want |-> TRUE, remove |-> TRUE]>> ELSE <<>>)
      \o (IF a.api = "c" THEN SizeSteps ELSE <<>>)
      \o FlattenSeq([i \in 1..Len(pts) |-> IF a.api = "c" THEN CSteps(pts[i]) ELSE CppSteps(pts[i])])
      \* a different seed must give different draws (the seed really arrives)
@@ -91,6 +91,7 @@ Next == UNCHANGED <<args, cbound, chist, cdone>>
 (* Map is total and argument-preserving on the bounded space *)
 MapOK == /\ MapCreate(args).seed = Seeds[args.seed]
          /\ (args.dir = "rel" /\ ~args.nullflag) => (MapCreate(args).hasdir /\ MapCreate(args).dir = "od_c16/")
+         /\ (args.dir = "blank" /\ ~args.nullflag) => (MapCreate(args).hasdir /\ MapCreate(args).dir = "od_c16/run ")
          /\ args.nullflag => ~MapCreate(args).hasdir
 Emit == PrintT(<<"B", ToJson(Behaviour(args))>>)
 
